@@ -43,6 +43,8 @@ pub type Context = blake2b::ContextDyn;
 pub struct Blake2b {
     ctx: blake2b::ContextDyn,
     computed: bool, // whether the final digest has been computed
+    key: [u8; 64],  // key in use, needed to rekey on Mac::reset
+    key_len: usize,
 }
 
 impl Blake2b {
@@ -54,6 +56,8 @@ impl Blake2b {
         Self {
             ctx,
             computed: false,
+            key: [0; 64],
+            key_len: 0,
         }
     }
 
@@ -62,10 +66,14 @@ impl Blake2b {
     pub fn new_keyed(outlen: usize, key: &[u8]) -> Self {
         assert!(key.len() <= 64);
         let ctx = blake2b::ContextDyn::new_keyed(outlen, key);
-        Self {
+        let mut this = Self {
             ctx,
             computed: false,
-        }
+            key: [0; 64],
+            key_len: 0,
+        };
+        this.set_key(key);
+        this
     }
 
     fn update(&mut self, input: &[u8]) {
@@ -79,16 +87,24 @@ impl Blake2b {
         self.computed = true;
     }
 
+    fn set_key(&mut self, key: &[u8]) {
+        self.key = [0; 64];
+        self.key[..key.len()].copy_from_slice(key);
+        self.key_len = key.len();
+    }
+
     /// Reset the context to the state after calling `new`
     pub fn reset(&mut self) {
         self.ctx.reset();
         self.computed = false;
+        self.set_key(&[]);
     }
 
     /// Reset the blake2 context with a key
     pub fn reset_with_key(&mut self, key: &[u8]) {
         self.ctx.reset_with_key(key);
         self.computed = false;
+        self.set_key(key);
     }
 
     /// Compute the blake2 function as one call
@@ -129,7 +145,9 @@ impl Mac for Blake2b {
     }
 
     fn reset(&mut self) {
-        Blake2b::reset(self);
+        // a MAC keeps its key across reset
+        let (key, key_len) = (self.key, self.key_len);
+        Blake2b::reset_with_key(self, &key[..key_len]);
     }
 
     fn result(&mut self) -> MacResult {
